@@ -27,7 +27,17 @@ RULE = (
     "prescribed spectra with tol away from the rank-switch values, feasible Tucker ranks), few iterations, stoptol 0 so "
     "both runs do the same number of sweeps.  Oracle: den of the two models agree within 1e-7 relative (times c / "
     "transposed by p), fits agree in squared form.  Non-trivial: N >= 3 with rank >= 2 (>= one truncated mode for "
-    "hosvd), and for relabelling a non-identity permutation with distinct mode sizes."
+    "hosvd), and for relabelling a non-identity permutation with distinct mode sizes.  Round 2 classes: (1) holders in "
+    "derived states (grown / permuted / C-ordered dense data, sparse data with stored zeros, numpy.int64 shapes, results of "
+    "conversions and arithmetic); (2) integer-valued data in integer dtypes for cp_als, cp_apr (counts), hosvd, gcp "
+    "(counts / binary); (3) state across calls: gcp_opt runs whose LBFGSB object has already solved 1..3 other generated "
+    "problems (other sizes, objectives) compared with a fresh object and with a second use on the same problem; "
+    "call-history cells for cp_als, cp_apr x3, hosvd, tucker_als (problem P, then 1..3 other problems with explicit options, "
+    "then P again with the same objects and, half of the time, every option at its default); (4) structured guesses for "
+    "cp_als / tucker_als, block data; (5) every documented numeric option of cp_apr (epsDivZero, kappa, kappatol, epsActive, "
+    "mu0, lbfgsMem, maxinneriters, printinneritn) and of LBFGSB (m, factr, pgtol, maxfun, maxls, maxiter up to 1000) over "
+    "its admissible range, stoptol log-uniform, data magnitude 1e-6..1e6 (cp_apr data become rates), scale factors up to "
+    "1e+-6.  cp_als pairs on instances where ALS itself breaks down are not judged (see C09)."
 )
 ASSUMPTIONS = [
     "bulk numeric content expanded by np.random.default_rng from Hypothesis-drawn integer seeds",
@@ -47,7 +57,7 @@ ASSUMPTIONS = [
     "tucker_als problems: feasible rank vectors and noisy data (see C10) so that the leading subspaces are well defined",
 ]
 
-PREDICATES = {}  # filled below (the predicate needs the data builder)
+PREDICATES = {"int_square_wraps": C10._int_square_wraps}  # more are added below (they need the data builders)
 
 REL = 1e-7
 
@@ -105,7 +115,11 @@ def _als_problem(draw, tier, sparse=False):
              data_seed=draw(st.integers(0, 10**6)), style=draw(st.sampled_from(["normal", "uniform"])),
              holder="sptensor" if sparse else "tensor", density=draw(st.sampled_from([1.0, 0.8, 0.6])) if sparse else 1.0,
              stored=draw(st.sampled_from(["sorted", "reverse", "random"])),
-             init=draw(st.sampled_from(["normal", "uniform"])), init_seed=draw(st.integers(0, 10**6)), init_weights="unit",
+             scale=draw(st.sampled_from(H.SCALES)),  # magnitude of the data: the relations hold at every magnitude
+             sp_state=draw(st.sampled_from(["plain", "plain", "explicit-zeros", "np-shape", "from-tensor", "halved-doubled"])),
+             prov=draw(st.sampled_from(H.PROVS_F64)),
+             init=draw(st.sampled_from(["normal", "uniform", "normal", "uniform"] + list(H.STRUCTURED_INITS))),
+             init_seed=draw(st.integers(0, 10**6)), init_weights="unit",
              np_seed=draw(st.integers(0, 2**31 - 1)),
              dimorder=draw(st.one_of(st.none(), st.permutations(range(N)).map(list))),
              maxiters=draw(st.integers(1, 5)), fixsigns=draw(st.booleans()))
@@ -135,7 +149,57 @@ def _als_labels(ctx, case):
     N, R = len(case["shape"]), int(case["R"])
     ctx.nt = N >= 3 and R >= 2
     ctx.label(f"order{N}", f"R{R}", f"noise-{case['noise']}", "optdims-subset" if case.get("optdims") else "optdims-all",
-              "distinct-sizes" if len(set(case["shape"])) > 1 else "cubical")
+              "distinct-sizes" if len(set(case["shape"])) > 1 else "cubical", "scale-%g" % float(case.get("scale", 1.0)),
+              "dtype-" + case.get("dtype", "float64"),
+              "guess-structured" if case.get("init") in H.STRUCTURED_INITS else "guess-generic")
+
+
+def _als_breakdown(case, A):
+    """NumPy replay of the ALS sweeps (least-squares steps from the given guess in the effective mode order): True when a
+    step is singular or annihilates a component up to rounding (see C09._breakdown) -- exact or noise-level zeros then
+    decide the result and two presentations may legitimately differ.  Consulted only when a relation fails."""
+    g = H.build_init(case)
+    if not isinstance(g, ttb.ktensor):
+        return False
+    U = [np.array(f, dtype=float) for f in g.factor_matrices]
+    N = len(U)
+    order = case["dimorder"] if case.get("dimorder") is not None else list(range(N))
+    if case.get("optdims") is not None:
+        order = [d for d in order if d in case["optdims"]]
+    nA = np.sqrt(H.sq(A))
+    for it in range(int(case["maxiters"])):
+        for n in order:
+            try:
+                Y = H.gram_except(U, n)
+                sv = np.linalg.svd(Y, compute_uv=False)
+                if sv[0] == 0 or sv[-1] <= 1e-12 * sv[0]:
+                    return True
+                B = np.linalg.solve(Y.T, H.mttkrp_ref(A, U, n).T).T
+            except Exception:  # noqa: BLE001
+                return True
+            cn = np.sqrt(np.sum(B * B, axis=0))
+            if np.any(cn * np.sqrt(np.abs(np.diag(Y))) <= 1e-12 * nA):
+                return True
+            w = cn if it == 0 else np.maximum(np.max(np.abs(B), axis=0), 1.0)
+            U[n] = B / w
+    return False
+
+
+def _als_judged(ctx, case, A, fn):
+    """run the relation `fn`; a failure on an instance where ALS itself breaks down is not judged"""
+    from ..core import Abort
+
+    try:
+        fn()
+    except Abort:
+        if not (ctx.violations and _als_breakdown(case, A)):
+            raise
+    else:
+        if not (ctx.violations and _als_breakdown(case, A)):
+            return
+    ctx.violations.clear()
+    ctx.nt = False
+    ctx.skip("als-breakdown:singular-or-annihilating-step")
 
 
 def _als_pair(ctx, resA, resB, shape, R, A_norm2, c=1.0, perm=None, tag="pair"):
@@ -151,27 +215,45 @@ def _als_pair(ctx, resA, resB, shape, R, A_norm2, c=1.0, perm=None, tag="pair"):
     ctx.check(resA[2].get("iters") == resB[2].get("iters"), f"{tag}-same-iteration-count", (resA[2].get("iters"), resB[2].get("iters")))
 
 
-@cell("C18/cp_als/dense-vs-sparse", strategy=lambda tier: _als_problem(tier, sparse=True), quick=600, thorough=12000, shards=(4, 16))
+@st.composite
+def _als_dtype_case(draw, tier, sparse):
+    """problem whose data may be integer-valued and held in an integer dtype (both holders use the same dtype)"""
+    c = draw(_als_problem(tier, sparse=sparse))
+    c["dtype"] = draw(st.sampled_from(["float64"] * 8 + sorted(H.INT_RANGE)))
+    if c["dtype"] in H.INT_RANGE:
+        c["mag"] = draw(st.sampled_from(["small", "medium", "full"]))
+        c["scale"] = 1.0
+        c["prov"] = draw(st.sampled_from(H.PROVS_ANY))
+    return c
+
+
+@cell("C18/cp_als/dense-vs-sparse", strategy=lambda tier: _als_dtype_case(tier, True), quick=600, thorough=12000, shards=(4, 16))
 def als_dense_sparse(ctx, case):
     S, A = H.build_data(case)
     if H.unfolding_margin(A, int(case["R"])) < 1e-3:
         ctx.skip("unfolding-rank-margin")
     _als_labels(ctx, case)
-    ctx.label(f"density-{case['density']}", "stored-" + case["stored"])
-    D = H.make_tensor(A)
-    with ctx.sut("cp_als-dense"):
-        ra, _ = _als(D, case, H.build_init(case))
-    with ctx.sut("cp_als-sparse"):
-        rb, _ = _als(S, case, H.build_init(case))
-    _als_pair(ctx, ra, rb, case["shape"], int(case["R"]), H.sq(A), tag="dense-sparse")
+    ctx.label(f"density-{case['density']}", "stored-" + case["stored"], "sparse-" + case["sp_state"])
+    D, _ = H.hold(A, case["dtype"], case["prov"], int(case["data_seed"]))
+
+    def rel():
+        with ctx.sut("cp_als-dense"):
+            ra, _ = _als(D, case, H.build_init(case))
+        with ctx.sut("cp_als-sparse"):
+            rb, _ = _als(S, case, H.build_init(case))
+        _als_pair(ctx, ra, rb, case["shape"], int(case["R"]), H.sq(A), tag="dense-sparse")
+
+    _als_judged(ctx, case, A, rel)
 
 
 @st.composite
 def _als_print_case(draw, tier):
-    c = draw(_als_problem(tier, sparse=draw(st.booleans())))
-    c["printitn"] = draw(st.integers(1, 4))
-    c["stoptol"] = draw(st.sampled_from([0.0, 1e-4, 1e-2]))
-    c["init"] = draw(st.sampled_from(["normal", "uniform", "random"]))
+    c = draw(_als_dtype_case(tier, draw(st.booleans())))
+    c["printitn"] = draw(st.sampled_from([1, 1, 2, 3, 4, 7, 1000]))
+    c["silent"] = draw(st.sampled_from([0, 0, -1, -4]))  # every non-positive interval means silence
+    c["stoptol"] = draw(H.STOPTOLS)
+    if draw(st.integers(0, 3)) == 0:
+        c["init"] = "random"
     return c
 
 
@@ -181,16 +263,22 @@ def als_printing(ctx, case):
     if H.unfolding_margin(A, int(case["R"])) < 1e-3:
         ctx.skip("unfolding-rank-margin")
     _als_labels(ctx, case)
-    ctx.label(case["holder"], f"printitn-{case['printitn']}", f"stoptol-{case['stoptol']}", "init-" + case["init"])
-    with ctx.sut("cp_als-silent"):
-        ra, ta = _als(X, case, H.build_init(case), printitn=0, stoptol=case["stoptol"])
-    with ctx.sut("cp_als-printing"):
-        rb, tb = _als(X, case, H.build_init(case), printitn=int(case["printitn"]), stoptol=case["stoptol"])
-    ctx.check(ta.strip() == "" and "CP_ALS" in tb, "printing-setting-takes-effect", (ta[:40], tb[:40]))
-    _als_pair(ctx, ra, rb, case["shape"], int(case["R"]), H.sq(A), tag="printing")
+    st_ = float(case["stoptol"])
+    ctx.label(case["holder"], f"printitn-{case['printitn']}", "stoptol-0" if st_ == 0 else ("stoptol<1e-6" if st_ < 1e-6 else
+                                                                                             "stoptol>=1e-6"), "init-" + case["init"])
+
+    def rel():
+        with ctx.sut("cp_als-silent"):
+            ra, ta = _als(X, case, H.build_init(case), printitn=int(case.get("silent", 0)), stoptol=st_)
+        with ctx.sut("cp_als-printing"):
+            rb, tb = _als(X, case, H.build_init(case), printitn=int(case["printitn"]), stoptol=st_)
+        ctx.check(ta.strip() == "" and "CP_ALS" in tb, "printing-setting-takes-effect", (ta[:40], tb[:40]))
+        _als_pair(ctx, ra, rb, case["shape"], int(case["R"]), H.sq(A), tag="printing")
+
+    _als_judged(ctx, case, A, rel)
 
 
-@cell("C18/cp_als/same-seed", strategy=lambda tier: _als_problem(tier, sparse=False), quick=300, thorough=6000, shards=(4, 16))
+@cell("C18/cp_als/same-seed", strategy=lambda tier: _als_dtype_case(tier, False), quick=300, thorough=6000, shards=(4, 16))
 def als_same_seed(ctx, case):
     X, A = H.build_data(case)
     if H.unfolding_margin(A, int(case["R"])) < 1e-3:
@@ -213,10 +301,10 @@ def als_same_seed(ctx, case):
 
 @st.composite
 def _scale(draw):
-    kind = draw(st.sampled_from(["pow2", "pow2", "3.7", "1e-3"]))
+    kind = draw(st.sampled_from(["pow2", "pow2", "3.7", "1e-3", "1e-6", "1e6", "1e3"]))
     if kind == "pow2":
         return float(2.0 ** draw(st.integers(-40, 40).filter(lambda k: k != 0)))
-    return 3.7 if kind == "3.7" else 1e-3
+    return float(kind)
 
 
 @st.composite
@@ -235,11 +323,15 @@ def als_scaling(ctx, case):
     c = float(case["c"])
     ctx.label(case["holder"], "c-pow2" if np.log2(c) == int(np.log2(c)) else f"c-{c}", "c<1" if c < 1 else "c>1")
     Xc = H.make_tensor(c * A) if case["holder"] == "tensor" else H.make_sptensor(c * A, int(case["data_seed"]), case["stored"])
-    with ctx.sut("cp_als"):
-        ra, _ = _als(X, case, H.build_init(case))
-    with ctx.sut("cp_als-scaled"):
-        rb, _ = _als(Xc, case, H.build_init(case))
-    _als_pair(ctx, ra, rb, case["shape"], int(case["R"]), H.sq(A), c=c, tag="scaling")
+
+    def rel():
+        with ctx.sut("cp_als"):
+            ra, _ = _als(X, case, H.build_init(case))
+        with ctx.sut("cp_als-scaled"):
+            rb, _ = _als(Xc, case, H.build_init(case))
+        _als_pair(ctx, ra, rb, case["shape"], int(case["R"]), H.sq(A), c=c, tag="scaling")
+
+    _als_judged(ctx, case, A, rel)
 
 
 @st.composite
@@ -269,11 +361,15 @@ def als_relabel(ctx, case):
     gp = H.make_ktensor(np.asarray(g.weights), [np.asarray(g.factor_matrices[p[i]]) for i in range(N)])
     dimorder = case["dimorder"] if case["dimorder"] is not None else list(range(N))
     casep = dict(case, optdims=None if case["optdims"] is None else [q[m] for m in case["optdims"]])
-    with ctx.sut("cp_als"):
-        ra, _ = _als(X, case, g)
-    with ctx.sut("cp_als-relabelled"):
-        rb, _ = _als(Xp, casep, gp, dimorder=[q[m] for m in dimorder])
-    _als_pair(ctx, ra, rb, shape, int(case["R"]), H.sq(A), perm=p, tag="relabel")
+
+    def rel():
+        with ctx.sut("cp_als"):
+            ra, _ = _als(X, case, g)
+        with ctx.sut("cp_als-relabelled"):
+            rb, _ = _als(Xp, casep, gp, dimorder=[q[m] for m in dimorder])
+        _als_pair(ctx, ra, rb, shape, int(case["R"]), H.sq(A), perm=p, tag="relabel")
+
+    _als_judged(ctx, case, A, rel)
 
 
 # --------------------------------------------------------------------------
@@ -301,7 +397,23 @@ def apr_counts(case):
                 sl[k] = i
                 if not np.any(np.moveaxis(A, k, 0)[i]):
                     A[tuple(sl)] = 1.0
-    return A
+    # magnitude of the data (rates instead of counts): the three relations hold at every magnitude
+    return A * float(case.get("scale", 1.0))
+
+
+def apr_holders(case, A):
+    """(dense, sparse) holders of the same array; count data may be held in an integer dtype (both holders alike)"""
+    dt = case.get("dtype", "float64")
+    if dt == "float64" or float(case.get("scale", 1.0)) != 1.0 or float(np.max(A)) > np.iinfo(np.dtype(dt)).max:
+        dt = "float64"
+    D = H.hold(A, dt, case.get("prov", "ctor"), int(case["data_seed"]))[0]
+    S = H.make_sptensor(A, int(case["data_seed"]), case["stored"], dt, case.get("sp_state", "plain"))
+    return D, S
+
+
+def _logu(lo, hi):
+    """log-uniform over [10^lo, 10^hi] in quarter decades"""
+    return st.integers(4 * lo, 4 * hi).map(lambda k: float(10.0 ** (k / 4.0)))
 
 
 def _apr_has_empty_slice(case):
@@ -311,6 +423,18 @@ def _apr_has_empty_slice(case):
 
 
 PREDICATES["apr_has_empty_slice"] = _apr_has_empty_slice
+
+
+def _apr_sparse_stores_explicit_zero(case):
+    """the sparse holder stores an explicit zero: the sparse pdnr/pqnr row solvers take every stored entry for a count
+    (empty-row test by `sparse_indices.size`, 0 * log(0) = nan in the row objective when the model vanishes there)."""
+    if case.get("sp_state") != "explicit-zeros":
+        return False
+    S = apr_holders(case, apr_counts(case))[1]
+    return bool(np.any(np.asarray(S.vals) == 0))
+
+
+PREDICATES["apr_sparse_stores_explicit_zero"] = _apr_sparse_stores_explicit_zero
 
 
 def apr_init(case):
@@ -333,21 +457,41 @@ def _apr_strategy(alg, relation):
                  stored=draw(st.sampled_from(["sorted", "reverse", "random"])),
                  maxiters=draw(st.integers(1, 3)), maxinneriters=draw(st.integers(1, 6)),
                  stoptol=draw(st.sampled_from([0.0, 0.0, 1e-4])))
+        # every documented numeric option over its admissible range; half of the cases leave them at their defaults
+        c["scale"] = draw(st.sampled_from([1.0, 1.0, 1.0, 1e-6, 1e-3, 1e3, 1e6]))
+        c["dtype"] = draw(st.sampled_from(["float64", "float64", "float64", "int64", "uint8", "int32"]))
+        c["prov"] = draw(st.sampled_from(H.PROVS_ANY))
+        # stored zeros derail the sparse pdnr/pqnr row solvers (open finding C18-F3) and every such case costs 20 probe runs:
+        # reduced rate there
+        c["sp_state"] = draw(st.sampled_from(["plain", "plain", "explicit-zeros", "np-shape"] if alg == "mu" else
+                                             ["plain"] * 6 + ["np-shape"] * 3 + ["explicit-zeros"]))
+        wide = draw(st.booleans())
+        c["wide"] = wide
+        if wide:
+            c["epsDivZero"] = draw(_logu(-16, -2))
+            c["maxinneriters"] = draw(st.integers(1, 12))
         if alg == "mu":
-            c["kappa"] = draw(st.sampled_from([0.01, 0.1]))
+            c["kappa"] = draw(_logu(-10, 0)) if wide else draw(st.sampled_from([0.01, 0.1]))
+            if wide:
+                c["kappatol"] = draw(_logu(-16, -2))
         if alg == "pdnr":
             c["inexact"] = draw(st.booleans())
             c["precompinds"] = draw(st.booleans())
+            if wide:
+                c["mu0"] = draw(_logu(-10, 0))
+                c["epsActive"] = draw(_logu(-12, -2))
         if alg == "pqnr":
-            c["lbfgsMem"] = draw(st.integers(1, 4))
+            c["lbfgsMem"] = draw(st.integers(1, 8 if wide else 4))
             c["precompinds"] = draw(st.booleans())
+            if wide:
+                c["epsActive"] = draw(_logu(-12, -2))
             # a dense run with an empty slice always ends in the known pqnr assertion (C11 finding): that class is kept
             # at a reduced rate, otherwise every empty slice gets one count
             c["fill_empty"] = draw(st.integers(0, 7)) != 0
         if relation == "printing":
             c["holder"] = draw(st.sampled_from(["tensor", "sptensor"]))
-            c["printitn"] = draw(st.integers(1, 3))
-            c["printinneritn"] = draw(st.integers(0, 2))
+            c["printitn"] = draw(st.sampled_from([1, 1, 2, 3, 7, 1000]))
+            c["printinneritn"] = draw(st.sampled_from([0, 0, 1, 2, 5, 100]))
             # also runs that do reach their stopping test (looser tolerance, more sweeps): both must stop at the same sweep
             c["stoptol"] = draw(st.sampled_from([0.0, 1e-4, 1e-2, 0.1]))
             c["maxiters"] = draw(st.integers(1, 6))
@@ -361,7 +505,7 @@ def _apr_strategy(alg, relation):
 def _apr(data, case, init, printitn=0, printinneritn=0):
     kw = dict(algorithm=case["alg"], stoptol=float(case["stoptol"]), maxiters=int(case["maxiters"]),
               maxinneriters=int(case["maxinneriters"]), init=init, printitn=printitn, printinneritn=printinneritn)
-    for k in ("kappa", "inexact", "precompinds", "lbfgsMem"):
+    for k in ("kappa", "inexact", "precompinds", "lbfgsMem", "epsDivZero", "kappatol", "mu0", "epsActive"):
         if k in case:
             kw[k] = case[k]
     if isinstance(init, str):
@@ -394,7 +538,10 @@ def _apr_labels(ctx, case, A):
     ctx.nt = N >= 3 and R >= 2
     empty = any(not np.any(np.moveaxis(A, k, 0)[i]) for k in range(A.ndim) for i in range(A.shape[k]))
     ctx.label(f"order{N}", f"R{R}", "has-empty-slice" if empty else "no-empty-slice", f"stoptol-{case['stoptol']}",
-              f"intensity-{case['intensity']}")
+              f"intensity-{case['intensity']}", "scale-%g" % float(case.get("scale", 1.0)), "dtype-" + case.get("dtype", "float64"),
+              "options-wide-range" if case.get("wide") else "options-default")
+    if "epsDivZero" in case:
+        ctx.label("epsDivZero>=1e-6" if case["epsDivZero"] >= 1e-6 else "epsDivZero<1e-6")
 
 
 def _perturbed_init(case, k):
@@ -453,7 +600,7 @@ def _apr_body(relation):
         _apr_labels(ctx, case, A)
         try:
             if relation == "dense-vs-sparse":
-                D, S = H.make_tensor(A), H.make_sptensor(A, int(case["data_seed"]), case["stored"])
+                D, S = apr_holders(case, A)
                 ra, _ = _apr_call(ctx, "cp_apr-dense", D, case, apr_init(case))
                 rb, _ = _apr_call(ctx, "cp_apr-sparse", S, case, apr_init(case))
                 rerun = lambda w, g: _apr(S if w else D, case, g)[0]  # noqa: E731
@@ -472,7 +619,7 @@ def _apr_body(relation):
                                 return ""
                     return ":dense-keeps-empty-row" if keeps[0] and not keeps[1] else ""
             elif relation == "printing":
-                X = H.make_tensor(A) if case["holder"] == "tensor" else H.make_sptensor(A, int(case["data_seed"]), case["stored"])
+                X = apr_holders(case, A)[0 if case["holder"] == "tensor" else 1]
                 ctx.label(case["holder"])
                 ra, ta = _apr_call(ctx, "cp_apr-silent", X, case, apr_init(case))
                 rb, tb = _apr_call(ctx, "cp_apr-printing", X, case, apr_init(case), printitn=int(case["printitn"]),
@@ -481,7 +628,7 @@ def _apr_body(relation):
                 rerun = lambda w, g: _apr(X, case, g, printitn=int(case["printitn"]) if w else 0,  # noqa: E731
                                           printinneritn=int(case["printinneritn"]) if w else 0)[0]
             else:
-                X = H.make_tensor(A) if case["holder"] == "tensor" else H.make_sptensor(A, int(case["data_seed"]), case["stored"])
+                X = apr_holders(case, A)[0 if case["holder"] == "tensor" else 1]
                 ctx.label(case["holder"])
                 ra, _ = _apr_call(ctx, "cp_apr-seeded-1", X, case, "random")
                 rb, _ = _apr_call(ctx, "cp_apr-seeded-2", X, case, "random")
@@ -548,8 +695,15 @@ def _hosvd_problem(draw, tier):
     shape = [draw(st.integers(2, hi)) for _ in range(N)]
     while ref.prod(shape) > (200 if tier == "quick" else 600):
         shape[shape.index(max(shape))] -= 1
-    kind = draw(st.sampled_from(["tucker-decay", "tucker-decay", "lowrank-noise"]))
-    c = dict(shape=shape, kind=kind, data_seed=draw(st.integers(0, 10**6)), scale=1.0, rtrue=draw(st.integers(1, 3)),
+    dtype = draw(st.sampled_from(["float64"] * 8 + sorted(C10.INT_RANGE)))
+    if dtype in C10.INT_RANGE:
+        kind = "int-lowrank"
+    else:
+        kind = draw(st.sampled_from(["tucker-decay", "tucker-decay", "lowrank-noise", "block"]))
+    c = dict(shape=shape, kind=kind, data_seed=draw(st.integers(0, 10**6)), scale=draw(st.sampled_from(H.SCALES)),
+             dtype=dtype, mag=draw(st.sampled_from(["small", "medium", "full"])),
+             prov=draw(st.sampled_from(H.PROVS_F64 if dtype == "float64" else H.PROVS_ANY)),
+             rtrue=draw(st.integers(1, 3)),
              noise=draw(st.sampled_from([0.05, 0.3, 1.0])), tol_mode=draw(st.integers(0, 3)), tol_index=draw(st.integers(0, 5)),
              sequential=draw(st.booleans()), dimorder=draw(st.one_of(st.none(), st.permutations(range(N)).map(list))),
              ranks=None)
@@ -602,8 +756,13 @@ def _hosvd_setup(ctx, case):
         ctx.skip("no-well-separated-switch-values")
     N = A.ndim
     ctx.label(f"order{N}", case["kind"], "sequential" if case["sequential"] else "all-at-once",
-              "ranks-given" if case["ranks"] is not None else "ranks-auto")
+              "ranks-given" if case["ranks"] is not None else "ranks-auto", "dtype-" + case.get("dtype", "float64"),
+              "scale-%g" % float(case.get("scale", 1.0)))
     return A, tol
+
+
+def _hosvd_hold(case, A):
+    return H.hold(A, case.get("dtype", "float64"), case.get("prov", "ctor"), int(case["data_seed"]))[0]
 
 
 def _hosvd_pair(ctx, Ta, Tb, A, case, c=1.0, perm=None, tag="pair"):
@@ -626,15 +785,15 @@ def _hosvd_pair(ctx, Ta, Tb, A, case, c=1.0, perm=None, tag="pair"):
 @st.composite
 def _hosvd_print_case(draw, tier):
     c = draw(_hosvd_problem(tier))
-    c["verbosity"] = draw(st.sampled_from([1, 3, 6, 11]))
-    c["silent"] = draw(st.sampled_from([0, -1]))
+    c["verbosity"] = draw(st.sampled_from([1, 3, 6, 11, 0.5, 2.5, 1000]))
+    c["silent"] = draw(st.sampled_from([0, -1, -7.5]))
     return c
 
 
 @cell("C18/hosvd/printing", strategy=_hosvd_print_case, quick=800, thorough=16000, shards=(4, 16))
 def hosvd_printing(ctx, case):
     A, tol = _hosvd_setup(ctx, case)
-    X = H.make_tensor(A)
+    X = _hosvd_hold(case, A)
     ctx.label(f"verbosity-{case['verbosity']}")
     with ctx.sut("hosvd-silent"):
         Ta, ta = _hosvd(X, tol, case, verbosity=case["silent"])
@@ -657,7 +816,7 @@ def hosvd_scaling(ctx, case):
     c = float(case["c"])
     ctx.label("c<1" if c < 1 else "c>1")
     with ctx.sut("hosvd"):
-        Ta, _ = _hosvd(H.make_tensor(A), tol, case)
+        Ta, _ = _hosvd(_hosvd_hold(case, A), tol, case)
     with ctx.sut("hosvd-scaled"):
         Tb, _ = _hosvd(H.make_tensor(c * A), tol, case)
     _hosvd_pair(ctx, Ta, Tb, A, case, c=c, tag="scaling")
@@ -683,9 +842,10 @@ def hosvd_relabel(ctx, case):
     dimorder = case["dimorder"] if case["dimorder"] is not None else list(range(N))
     ranks_p = None if case["ranks"] is None else [case["ranks"][p[i]] for i in range(N)]
     with ctx.sut("hosvd"):
-        Ta, _ = _hosvd(H.make_tensor(A), tol, case)
+        Ta, _ = _hosvd(_hosvd_hold(case, A), tol, case)
     with ctx.sut("hosvd-relabelled"):
-        Tb, _ = _hosvd(H.make_tensor(np.transpose(A, p)), tol, case, dimorder=[q[m] for m in dimorder], ranks=ranks_p)
+        Tb, _ = _hosvd(H.hold(np.transpose(A, p), case.get("dtype", "float64"), "ctor")[0], tol, case,
+                       dimorder=[q[m] for m in dimorder], ranks=ranks_p)
     _hosvd_pair(ctx, Ta, Tb, A, case, perm=p, tag="relabel")
     ctx.nt = bool(ctx.nt) and p != sorted(p) and len(set(case["shape"])) > 1
 
@@ -708,6 +868,7 @@ def _tucker_problem(draw, tier):
             rank[n] = min(rank[n], ref.prod(rank) // rank[n])
     # the data have a clear multilinear-rank structure at exactly the requested ranks plus noise: a spectral gap at the cut
     c = dict(shape=shape, kind="tucker-noise", mlrank=list(rank), noise=draw(st.sampled_from([1e-3, 1e-2, 0.1])),
+             scale=draw(st.sampled_from(H.SCALES)), prov=draw(st.sampled_from(H.PROVS_F64)),
              data_seed=draw(st.integers(0, 10**6)), rank=rank, rank_form="list", init="list", init_seed=draw(st.integers(0, 10**6)),
              np_seed=draw(st.integers(0, 2**31 - 1)), dimorder=draw(st.one_of(st.none(), st.permutations(range(N)).map(list))),
              form="list", maxiters=draw(st.integers(1, 4)))
@@ -730,7 +891,11 @@ def _tucker_labels(ctx, case):
     N = len(case["shape"])
     ctx.nt = N >= 3 and any(r < n for r, n in zip(case["rank"], case["shape"])) and max(case["rank"]) >= 2
     ctx.label(f"order{N}", f"noise-{case['noise']}", "truncating" if any(r < n for r, n in zip(case["rank"], case["shape"]))
-              else "full-ranks")
+              else "full-ranks", "scale-%g" % float(case.get("scale", 1.0)))
+
+
+def _tucker_hold(case, A):
+    return H.hold(A, "float64", case.get("prov", "ctor"), int(case["data_seed"]))[0]
 
 
 def _tucker_pair(ctx, ra, rb, A, case, c=1.0, perm=None, tag="pair"):
@@ -748,9 +913,12 @@ def _tucker_pair(ctx, ra, rb, A, case, c=1.0, perm=None, tag="pair"):
 @st.composite
 def _tucker_print_case(draw, tier):
     c = draw(_tucker_problem(tier))
-    c["printitn"] = draw(st.integers(1, 3))
-    c["init"] = draw(st.sampled_from(["list", "random", "nvecs"]))
-    c["stoptol"] = draw(st.sampled_from([0.0, 1e-4, 1e-2]))
+    c["printitn"] = draw(st.sampled_from([1, 1, 2, 3, 7, 1000]))
+    c["silent"] = draw(st.sampled_from([0, 0, -1, -4]))
+    c["init"] = draw(st.sampled_from(["list", "random", "nvecs", "list-eye", "list-zeros", "list-int"]))
+    # at most 0.5: tucker_als tests the very first fit against stoptol, and an exact fit (1 up to rounding, which ARPACK's
+    # unseedable start vector perturbs) would sit exactly on a threshold of 1
+    c["stoptol"] = min(draw(H.STOPTOLS), 0.5)
     return c
 
 
@@ -758,13 +926,32 @@ def _tucker_print_case(draw, tier):
 def tucker_printing(ctx, case):
     A = C10.tucker_data(case)
     _tucker_labels(ctx, case)
-    ctx.label("init-" + case["init"], f"stoptol-{case['stoptol']}")
-    X = H.make_tensor(A)
+    st_ = float(case["stoptol"])
+    ctx.label("init-" + case["init"], "stoptol-0" if st_ == 0 else ("stoptol<1e-6" if st_ < 1e-6 else "stoptol>=1e-6"))
+    X = _tucker_hold(case, A)
     with ctx.sut("tucker_als-silent"):
-        ra, ta = _tucker(X, case, C10._tucker_init(case), printitn=0, stoptol=float(case["stoptol"]))
+        ra, ta = _tucker(X, case, C10._tucker_init(case), printitn=int(case.get("silent", 0)), stoptol=float(case["stoptol"]))
     with ctx.sut("tucker_als-printing"):
         rb, tb = _tucker(X, case, C10._tucker_init(case), printitn=int(case["printitn"]), stoptol=float(case["stoptol"]))
     ctx.check("Iter" not in ta and "Iter" in tb, "printing-setting-takes-effect", (ta[:40], tb[:40]))
+    its = [r[2].get("iters") if isinstance(r, tuple) and len(r) == 3 and isinstance(r[2], dict) else None for r in (ra, rb)]
+    arpack = any(r < n - 1 for r, n in zip(case["rank"], case["shape"]))
+    if st_ > 0 and arpack and its[0] != its[1]:
+        # tensor.nvecs goes through ARPACK, whose start vector comes from an unseedable process-wide stream: every run is
+        # perturbed at rounding level, and the reported fit of a (near-)exact model carries sqrt(eps) ~ 1e-8 noise.  When
+        # some fit change (from silent runs truncated at k sweeps, stoptol 0) lies within 1e-6 of stoptol, two runs of one
+        # and the same presentation may stop at different sweeps: the instance says nothing about presentations.
+        fits = []
+        for k in range(1, int(case["maxiters"]) + 1):
+            with ctx.sut("tucker_als-truncated"):
+                rk, _ = _tucker(X, dict(case, maxiters=k), C10._tucker_init(case), printitn=0, stoptol=0.0)
+            f = rk[2].get("fit") if isinstance(rk, tuple) and len(rk) == 3 and isinstance(rk[2], dict) else None
+            fits.append(float(f) if H.is_float(f) else float("nan"))
+        deltas = [abs(fits[k] - (fits[k - 1] if k else 0.0)) for k in range(len(fits))]
+        if any(not np.isfinite(d) or abs(d - st_) <= 1e-6 for d in deltas):
+            ctx.label("arpack-stop-threshold-tie-not-judged")
+            ctx.nt = False
+            return
     _tucker_pair(ctx, ra, rb, A, case, tag="printing")
 
 
@@ -772,7 +959,7 @@ def tucker_printing(ctx, case):
 def tucker_same_seed(ctx, case):
     A = C10.tucker_data(case)
     _tucker_labels(ctx, case)
-    X = H.make_tensor(A)
+    X = _tucker_hold(case, A)
     with ctx.sut("tucker_als-seeded-1"):
         ra, _ = _tucker(X, case, "random")
     with ctx.sut("tucker_als-seeded-2"):
@@ -786,7 +973,7 @@ def tucker_same_seed(ctx, case):
 def _tucker_scale_case(draw, tier):
     c = draw(_tucker_problem(tier))
     c["c"] = draw(_scale())
-    c["init"] = draw(st.sampled_from(["list", "list-orth", "nvecs"]))
+    c["init"] = draw(st.sampled_from(["list", "list-orth", "nvecs", "list-eye", "list-zeros"]))
     return c
 
 
@@ -797,7 +984,7 @@ def tucker_scaling(ctx, case):
     c = float(case["c"])
     ctx.label("c<1" if c < 1 else "c>1", "init-" + case["init"])
     with ctx.sut("tucker_als"):
-        ra, _ = _tucker(H.make_tensor(A), case, C10._tucker_init(case))
+        ra, _ = _tucker(_tucker_hold(case, A), case, C10._tucker_init(case))
     with ctx.sut("tucker_als-scaled"):
         rb, _ = _tucker(H.make_tensor(c * A), case, C10._tucker_init(case))
     _tucker_pair(ctx, ra, rb, A, case, c=c, tag="scaling")
@@ -808,7 +995,7 @@ def _tucker_relabel_case(draw, tier):
     c = draw(_tucker_problem(tier))
     N = len(c["shape"])
     c["perm"] = list(draw(st.permutations(range(N))))
-    c["init"] = draw(st.sampled_from(["list", "list-orth"]))
+    c["init"] = draw(st.sampled_from(["list", "list-orth", "list-eye", "list-zeros"]))
     if c["dimorder"] is None and draw(st.booleans()):
         c["dimorder"] = list(draw(st.permutations(range(N))))
     return c
@@ -826,7 +1013,7 @@ def tucker_relabel(ctx, case):
     g = C10._tucker_init(case)
     gp = [g[p[i]] for i in range(N)]
     with ctx.sut("tucker_als"):
-        ra, _ = _tucker(H.make_tensor(A), case, g)
+        ra, _ = _tucker(_tucker_hold(case, A), case, g)
     with ctx.sut("tucker_als-relabelled"):
         rb, _ = _tucker(H.make_tensor(np.transpose(A, p)), case, gp, dimorder=[q[m] for m in dimorder],
                         rank=[case["rank"][p[i]] for i in range(N)])
@@ -846,23 +1033,60 @@ def gcp_data(case):
     fm = [rng.uniform(0.1, 1.0, (n, int(case["rtrue"]))) for n in shape]
     lam = ref.den_kruskal(np.full(int(case["rtrue"]), 3.0), fm)
     obj = case["objective"]
-    if obj in ("POISSON",):
+    sc = float(case.get("scale", 1.0))
+    if obj in ("POISSON",):  # must be counts (gcp rejects anything else): never rescaled
         return rng.poisson(lam).astype(float)
     if obj == "BERNOULLI_ODDS":
         return (rng.uniform(size=lam.shape) < lam / (1 + lam)).astype(float)
     if obj in ("GAMMA", "RAYLEIGH"):
-        return lam * rng.uniform(0.5, 1.5, lam.shape)
-    return lam + 0.1 * rng.standard_normal(lam.shape)
+        return lam * rng.uniform(0.5, 1.5, lam.shape) * sc
+    return (lam + 0.1 * rng.standard_normal(lam.shape)) * sc
+
+
+def gcp_tensor(case, A):
+    """dense holder; count / binary data may be held in an integer dtype (class 2)"""
+    dt = case.get("dtype", "float64")
+    if dt != "float64" and case["objective"] in ("POISSON", "BERNOULLI_ODDS") and float(np.max(A)) <= np.iinfo(np.dtype(dt)).max:
+        return H.hold(A, dt, case.get("prov", "ctor"), int(case["data_seed"]))[0]
+    return H.hold(A, "float64", case.get("prov", "ctor"), int(case["data_seed"]))[0]
+
+
+@st.composite
+def _gcp_problem(draw, tier, earlier=False):
+    N = draw(st.sampled_from([2, 3, 3]))
+    # problems solved earlier with the same optimizer object span a wider range of sizes (8 .. 216 entries)
+    shape = [draw(st.integers(2, 6 if earlier else (4 if tier == "quick" else 5))) for _ in range(N)]
+    return dict(shape=shape, R=draw(st.integers(1, 3)), rtrue=draw(st.integers(1, 2)), objective=draw(st.sampled_from(OBJECTIVES)),
+                data_seed=draw(st.integers(0, 10**6)), init_seed=draw(st.integers(0, 10**6)), np_seed=draw(st.integers(0, 2**31 - 1)),
+                init=draw(st.sampled_from(["ktensor", "list", "random"])),
+                scale=draw(st.sampled_from([1.0, 1.0, 1.0, 1e-2, 1e2])),
+                dtype=draw(st.sampled_from(["float64", "float64", "float64", "int64", "uint8", "int32"])),
+                prov=draw(st.sampled_from(H.PROVS_ANY)))
+
+
+@st.composite
+def _lbfgsb_options(draw):
+    """every numeric option of the LBFGSB wrapper over its admissible range (None = left at its default)"""
+    # a third of the runs is long enough to end by the optimizer's own stopping tests rather than by the iteration limit
+    return dict(maxiter=draw(st.one_of(st.integers(1, 8), st.integers(1, 8), st.sampled_from([40, 200, 1000]))),
+                m=draw(st.sampled_from([None, None, 1, 3, 10, 25])),
+                factr=draw(st.sampled_from([None, None, 1e7, 10.0, 1e12])),
+                pgtol=draw(st.sampled_from([None, None, None, 1e-12, 1e-5, 1e-2])),
+                maxfun=draw(st.sampled_from([None, None, 3, 1000])),
+                maxls=draw(st.sampled_from([None, None, 2, 40])))
 
 
 @st.composite
 def _gcp_case(draw, tier):
-    N = draw(st.sampled_from([2, 3, 3]))
-    shape = [draw(st.integers(2, 4 if tier == "quick" else 5)) for _ in range(N)]
-    return dict(shape=shape, R=draw(st.integers(1, 3)), rtrue=draw(st.integers(1, 2)), objective=draw(st.sampled_from(OBJECTIVES)),
-                data_seed=draw(st.integers(0, 10**6)), init_seed=draw(st.integers(0, 10**6)), np_seed=draw(st.integers(0, 2**31 - 1)),
-                maxiter=draw(st.integers(1, 8)), printitn=draw(st.integers(1, 5)),
-                init=draw(st.sampled_from(["ktensor", "list", "random"])))
+    c = draw(_gcp_problem(tier))
+    c["opt"] = draw(_lbfgsb_options())
+    c["printitn"] = draw(st.sampled_from([1, 2, 3, 5, 100]))
+    c["silent"] = draw(st.sampled_from([0, 0, -1]))
+    # state across calls (class 3): the optimizer object handed to the second run of the pair has, with probability 1/2,
+    # already solved 1..3 other generated problems (other sizes, objectives, guesses)
+    k = draw(st.sampled_from([0, 0, 0, 1, 2, 3]))
+    c["prior"] = [draw(_gcp_problem(tier, True)) for _ in range(k)]
+    return c
 
 
 def _gcp_init(case):
@@ -873,17 +1097,32 @@ def _gcp_init(case):
     return fm if case["init"] == "list" else ttb.ktensor(fm, np.ones(int(case["R"])))
 
 
-def _gcp(X, case, printitn):
-    from pyttb.gcp.handles import Objectives
+def _optimizer(case):
     from pyttb.gcp.optimizers import LBFGSB
+
+    kw = {k: v for k, v in case.get("opt", {"maxiter": case.get("maxiter", 5)}).items() if v is not None}
+    return LBFGSB(iprint=-1, **kw)
+
+
+def _gcp(X, case, printitn, optimizer=None):
+    from pyttb.gcp.handles import Objectives
 
     init = _gcp_init(case)
     if isinstance(init, str):
         np.random.seed(case["np_seed"])
     with H.captured() as buf:
-        res = ttb.gcp_opt(X, int(case["R"]), Objectives[case["objective"]], LBFGSB(maxiter=int(case["maxiter"]), iprint=-1),
+        res = ttb.gcp_opt(X, int(case["R"]), Objectives[case["objective"]], optimizer if optimizer is not None else _optimizer(case),
                           init=init, printitn=printitn)
     return res, buf.getvalue()
+
+
+def _used_optimizer(ctx, case):
+    """an optimizer object with the options of the case that has already solved the prior problems of the case"""
+    opt = _optimizer(case)
+    for q in case.get("prior", []):
+        with ctx.sut("gcp_opt-earlier-problem"):
+            _gcp(gcp_tensor(q, gcp_data(q)), q, 0, opt)
+    return opt
 
 
 def _gcp_pair(ctx, ra, rb, case, tag):
@@ -896,15 +1135,29 @@ def _gcp_pair(ctx, ra, rb, case, tag):
     ctx.check(ok and abs(float(fa) - float(fb)) <= 1e-7 * (abs(float(fa)) + abs(float(fb))) + 1e-12, f"{tag}-same-objective", (fa, fb))
 
 
+def _gcp_labels(ctx, case):
+    ctx.nt = len(case["shape"]) >= 3 and int(case["R"]) >= 2
+    o = case.get("opt", {})
+    ctx.label(case["objective"], f"order{len(case['shape'])}", "optimizer-fresh" if not case.get("prior") else "optimizer-reused",
+              "pgtol-default" if o.get("pgtol") is None else "pgtol-given",
+              "maxiter<=8" if int(o.get("maxiter", 1)) <= 8 else "maxiter>=40", "scale-%g" % float(case.get("scale", 1.0)),
+              "dtype-" + case.get("dtype", "float64"))
+    if case.get("prior"):
+        sz = ref.prod(case["shape"])
+        ctx.label("earlier-problem-of-other-size" if any(ref.prod(q["shape"]) != sz for q in case["prior"])
+                  else "earlier-problems-of-same-size")
+
+
 @cell("C18/gcp_opt-lbfgsb/printing", strategy=_gcp_case, quick=400, thorough=8000, shards=(4, 16))
 def gcp_printing(ctx, case):
     A = gcp_data(case)
-    ctx.nt = len(case["shape"]) >= 3 and int(case["R"]) >= 2
-    ctx.label(case["objective"], "init-" + case["init"], f"order{len(case['shape'])}")
+    _gcp_labels(ctx, case)
+    ctx.label("init-" + case["init"])
     with ctx.sut("gcp_opt-silent"):
-        ra, _ = _gcp(H.make_tensor(A), case, 0)
+        ra, _ = _gcp(gcp_tensor(case, A), case, int(case.get("silent", 0)))
+    opt = _used_optimizer(ctx, case)
     with ctx.sut("gcp_opt-printing"):
-        rb, _ = _gcp(H.make_tensor(A), case, int(case["printitn"]))
+        rb, _ = _gcp(gcp_tensor(case, A), case, int(case["printitn"]), opt)
     _gcp_pair(ctx, ra, rb, case, "printing")
 
 
@@ -912,12 +1165,200 @@ def gcp_printing(ctx, case):
 def gcp_same_seed(ctx, case):
     case = dict(case, init="random")
     A = gcp_data(case)
-    ctx.nt = len(case["shape"]) >= 3 and int(case["R"]) >= 2
-    ctx.label(case["objective"], f"order{len(case['shape'])}")
+    _gcp_labels(ctx, case)
     with ctx.sut("gcp_opt-seeded-1"):
-        ra, _ = _gcp(H.make_tensor(A), case, 0)
+        ra, _ = _gcp(gcp_tensor(case, A), case, 0)
+    opt = _used_optimizer(ctx, case)
     with ctx.sut("gcp_opt-seeded-2"):
-        rb, _ = _gcp(H.make_tensor(A), case, 0)
+        rb, _ = _gcp(gcp_tensor(case, A), case, 0, opt)
     _gcp_pair(ctx, ra, rb, case, "same-seed")
     ctx.check(isinstance(ra[1], ttb.ktensor) and isinstance(rb[1], ttb.ktensor) and H.snapshot(ra[1]) == H.snapshot(rb[1]),
               "same-seed-same-starting-guess")
+
+
+@st.composite
+def _gcp_reuse_case(draw, tier):
+    c = draw(_gcp_case(tier))
+    if not c["prior"]:
+        c["prior"] = [draw(_gcp_problem(tier, True)) for _ in range(draw(st.integers(1, 3)))]
+    return c
+
+
+@cell("C18/gcp_opt-lbfgsb/reused-optimizer", strategy=_gcp_reuse_case, quick=300, thorough=6000, shards=(4, 16))
+def gcp_reused_optimizer(ctx, case):
+    """the k-th call depends only on its own arguments: a fresh optimizer object, one that has solved 1..3 other generated
+    problems, and the same object used a second time on the same problem give the same model (same guess, same options)"""
+    A = gcp_data(case)
+    _gcp_labels(ctx, case)
+    ctx.label("init-" + case["init"])
+    with ctx.sut("gcp_opt-fresh-optimizer"):
+        ra, _ = _gcp(gcp_tensor(case, A), case, 0)
+    opt = _used_optimizer(ctx, case)
+    with ctx.sut("gcp_opt-reused-optimizer"):
+        rb, _ = _gcp(gcp_tensor(case, A), case, 0, opt)
+    _gcp_pair(ctx, ra, rb, case, "reused-optimizer")
+    with ctx.sut("gcp_opt-reused-optimizer-again"):
+        rc, _ = _gcp(gcp_tensor(case, A), case, 0, opt)
+    _gcp_pair(ctx, ra, rc, case, "optimizer-used-twice-on-the-problem")
+
+
+# --------------------------------------------------------------------------
+# state across calls (class 3): the k-th call depends only on its own arguments
+# --------------------------------------------------------------------------
+# One generated problem P is solved, then 1..3 other generated problems (other sizes, ranks, options given explicitly
+# where P leaves them at their defaults and vice versa), then P again with the very same data / guess objects: the two
+# solutions of P must agree.  (gcp_opt has its own cell above: there the optimizer object carries the state.)
+
+
+def _hist(draw, strat, tier):
+    c = draw(strat(tier))
+    c["others"] = [draw(strat(tier)) for _ in range(draw(st.integers(1, 3)))]
+    c["minimal"] = draw(st.booleans())  # P leaves every option it can at its default; the calls in between give theirs
+    return c
+
+
+def _als_min(X, case, g):
+    """cp_als for the history cell; 'minimal' = only what is needed is passed (dimorder, optdims, fixsigns, stoptol at
+    their defaults)"""
+    if not case.get("minimal"):
+        return _als(X, case, g)[0]
+    with H.captured():
+        return ttb.cp_als(X, int(case["R"]), maxiters=int(case["maxiters"]), init=g)
+
+
+@cell("C18/cp_als/call-history", strategy=lambda tier: st.composite(lambda draw: _hist(draw, lambda t: _als_dtype_case(t, draw(st.booleans())), tier))(),
+      quick=300, thorough=6000, shards=(4, 16))
+def als_history(ctx, case):
+    X, A = H.build_data(case)
+    if H.unfolding_margin(A, int(case["R"])) < 1e-3:
+        ctx.skip("unfolding-rank-margin")
+    _als_labels(ctx, case)
+    ctx.label(case["holder"], "options-at-defaults" if case["minimal"] else "options-given", f"calls-between-{len(case['others'])}")
+    g = H.build_init(case)
+
+    def rel():
+        with ctx.sut("cp_als-first"):
+            ra = _als_min(X, case, g)
+        for q in case["others"]:
+            Xq, Aq = H.build_data(q)
+            try:  # what these calls return (or raise) is judged by the other cells; here they only make history
+                _als(Xq, q, H.build_init(q), printitn=int(q.get("maxiters", 1)) % 2)
+            except Exception:  # noqa: BLE001
+                ctx.label("call-in-between-raised")
+        with ctx.sut("cp_als-again"):
+            rb = _als_min(X, case, g)
+        _als_pair(ctx, ra, rb, case["shape"], int(case["R"]), H.sq(A), tag="history")
+
+    _als_judged(ctx, case, A, rel)
+
+
+@cell("C18/tucker_als/call-history", strategy=lambda tier: st.composite(lambda draw: _hist(draw, _tucker_scale_case, tier))(),
+      quick=200, thorough=4000, shards=(4, 16))
+def tucker_history(ctx, case):
+    A = C10.tucker_data(case)
+    _tucker_labels(ctx, case)
+    ctx.label("init-" + case["init"], "options-at-defaults" if case["minimal"] else "options-given")
+    X, g = _tucker_hold(case, A), C10._tucker_init(case)
+
+    def run():
+        if not case["minimal"]:
+            return _tucker(X, case, g)[0]
+        with H.captured():
+            return ttb.tucker_als(X, list(case["rank"]), stoptol=0.0, maxiters=int(case["maxiters"]), init=g)
+
+    with ctx.sut("tucker_als-first"):
+        ra = run()
+    for q in case["others"]:
+        try:
+            _tucker(_tucker_hold(q, C10.tucker_data(q)), q, C10._tucker_init(q), printitn=int(q["maxiters"]) % 2, stoptol=1e-3)
+        except Exception:  # noqa: BLE001
+            ctx.label("call-in-between-raised")
+    with ctx.sut("tucker_als-again"):
+        rb = run()
+    _tucker_pair(ctx, ra, rb, A, case, tag="history")
+
+
+@cell("C18/hosvd/call-history", strategy=lambda tier: st.composite(lambda draw: _hist(draw, _hosvd_print_case, tier))(),
+      quick=300, thorough=6000, shards=(4, 16))
+def hosvd_history(ctx, case):
+    A, tol = _hosvd_setup(ctx, case)
+    ctx.label("options-at-defaults" if case["minimal"] else "options-given")
+    X = _hosvd_hold(case, A)
+
+    def run():
+        if not case["minimal"]:
+            return _hosvd(X, tol, case)[0]
+        with H.captured():
+            return ttb.hosvd(X, tol)
+
+    with ctx.sut("hosvd-first"):
+        Ta = run()
+    for q in case["others"]:
+        try:
+            Aq = C10.hosvd_data(q)
+            _hosvd(_hosvd_hold(q, Aq), _mid_tol(Aq, q) or 0.3, q, verbosity=q["verbosity"])
+        except Exception:  # noqa: BLE001
+            ctx.label("call-in-between-raised")
+    with ctx.sut("hosvd-again"):
+        Tb = run()
+    if case["minimal"]:
+        case = dict(case, sequential=True, ranks=None)
+    _hosvd_pair(ctx, Ta, Tb, A, case, tag="history")
+
+
+def _apr_history_body(ctx, case):
+    A = apr_counts(case)
+    if not A.any():
+        ctx.skip("all-zero-counts")
+    _apr_labels(ctx, case, A)
+    ctx.label(case["holder"], "options-at-defaults" if case["minimal"] else "options-given")
+    X = apr_holders(case, A)[0 if case["holder"] == "tensor" else 1]
+    g = apr_init(case)
+
+    def run(guess):
+        if not case["minimal"]:
+            return _apr(X, case, guess)[0]
+        with H.captured():
+            return ttb.cp_apr(X, int(case["R"]), algorithm=case["alg"], maxiters=int(case["maxiters"]), init=guess, printitn=0)
+
+    try:
+        try:
+            ra = run(g)
+        except AssertionError as e:
+            if "L-BFGS first iterate is bad" in str(e):
+                raise _KnownPqnr() from None
+            with ctx.sut("cp_apr-first"):
+                raise
+        except Exception:  # noqa: BLE001
+            with ctx.sut("cp_apr-first"):
+                raise
+        for q in case["others"]:
+            try:
+                Aq = apr_counts(q)
+                _apr(apr_holders(q, Aq)[0 if q["holder"] == "tensor" else 1], q, apr_init(q), printitn=int(q["maxiters"]) % 2)
+            except Exception:  # noqa: BLE001
+                ctx.label("call-in-between-raised")
+        try:
+            rb = run(g)
+        except AssertionError as e:
+            if "L-BFGS first iterate is bad" in str(e):
+                raise _KnownPqnr() from None
+            with ctx.sut("cp_apr-again"):
+                raise
+        except Exception:  # noqa: BLE001
+            with ctx.sut("cp_apr-again"):
+                raise
+    except _KnownPqnr:
+        ctx.label("pqnr-known-assertion-not-judged")
+        ctx.nt = False
+        return
+    # the same presentation twice: deterministic, no conditioning argument applies
+    ctx.require(all(isinstance(r, tuple) and len(r) == 3 for r in (ra, rb)), "history-returns-triples")
+    _close(ctx, _kt(ctx, ra[0], case["shape"], int(case["R"]), "history-first"),
+           _kt(ctx, rb[0], case["shape"], int(case["R"]), "history-second"), "history-same-model")
+
+
+for _alg in ("mu", "pdnr", "pqnr"):
+    cell(f"C18/cp_apr-{_alg}/call-history",
+         strategy=(lambda alg: lambda tier: st.composite(lambda draw: _hist(draw, _apr_strategy(alg, "same-seed"), tier))())(_alg),
+         quick=100, thorough=2500, shards=(4, 16))(_apr_history_body)
